@@ -463,7 +463,7 @@ func runC07(p *Prog, r *Report) {
 		for _, blk := range m.Blocks {
 			for _, in := range blk.Instrs {
 				if fa, ok := in.(*ssa.FieldAddr); ok {
-					if _, f, _, ok := fieldOf(fa); ok && f == "responseWriter" {
+					if _, f, _, ok := fieldOf(fa); ok && f == recRole(p, "responseWriter") {
 						touches = true
 					}
 				}
@@ -545,7 +545,7 @@ func runC07(p *Prog, r *Report) {
 		return
 	}
 	// status relayed = this recorder's code
-	r.Check(b.recField(relayWH.Common().Args[0], "code"), "C07.R1", sn+": relayed status is this attempt's recorded status", p.InstrPos(relayWH), "w.WriteHeader(bw.code) of the recorder handed to this iteration's handler call", "the relayed status is not the code field of this attempt's recorder")
+	r.Check(b.recField(relayWH.Common().Args[0], recRole(p, "code")), "C07.R1", sn+": relayed status is this attempt's recorded status", p.InstrPos(relayWH), "w.WriteHeader(bw.code) of the recorder handed to this iteration's handler call", "the relayed status is not the code field of this attempt's recorder")
 	// body relayed: phi of {nil, Reader() of this iteration's writer}
 	wVal := func(v ssa.Value) bool { return resultValue(b.newW, 0)(v) }
 	var readerCalls []*ssa.Call
@@ -611,7 +611,7 @@ func runC07(p *Prog, r *Report) {
 		return in == ssa.Instruction(relayWH)
 	}
 	hijackRet := map[*ssa.Return]bool{}
-	for _, t := range BoolTests(fn, func(v ssa.Value) bool { return b.recField(v, "hijacked") }) {
+	for _, t := range BoolTests(fn, func(v ssa.Value) bool { return b.recField(v, recRole(p, "hijacked")) }) {
 		for _, ret := range Returns(fn) {
 			if OnlyViaEdge(fn, ret, t.True) {
 				hijackRet[ret] = true
@@ -724,7 +724,7 @@ func c07ImplicitStatus(p *Prog, r *Report, b *bufInfo) {
 	for _, ifi := range ifs(fn) {
 		cond, pos := condStrip(ifi.Cond)
 		bo, ok := cond.(*ssa.BinOp)
-		if !ok || (bo.Op != token.EQL && bo.Op != token.NEQ) || !b.recField(bo.X, "code") {
+		if !ok || (bo.Op != token.EQL && bo.Op != token.NEQ) || !b.recField(bo.X, recRole(p, "code")) {
 			continue
 		}
 		if k, ok := constInt(bo.Y); !ok || k != 0 {
@@ -745,7 +745,7 @@ func c07ImplicitStatus(p *Prog, r *Report, b *bufInfo) {
 	okStore := false
 	for _, in := range zeroEdge.To().Instrs {
 		if st, ok := in.(*ssa.Store); ok {
-			if _, f, base, ok := fieldOf(st.Addr); ok && f == "code" && base == ssa.Value(b.recAlloc) {
+			if _, f, base, ok := fieldOf(st.Addr); ok && f == recRole(p, "code") && base == ssa.Value(b.recAlloc) {
 				if k, ok := constInt(st.Val); ok && k == 200 {
 					okStore = true
 				}
@@ -758,7 +758,7 @@ func c07ImplicitStatus(p *Prog, r *Report, b *bufInfo) {
 	for _, blk := range fn.Blocks {
 		for _, in := range blk.Instrs {
 			u, ok := in.(*ssa.UnOp)
-			if !ok || !b.recField(u, "code") {
+			if !ok || !b.recField(u, recRole(p, "code")) {
 				continue
 			}
 			isTestOperand := false
@@ -801,11 +801,12 @@ func c07ImplicitStatus(p *Prog, r *Report, b *bufInfo) {
 			ok := true
 			for _, ret := range Returns(sc) {
 				v := stripConv(ReturnOperand(ret, 0))
-				if isFieldLoad(v, pw, "code") {
+				pwCode := fieldByRole(pw, "code", isPlainBasic(types.Int), nil)
+				if isFieldLoad(v, pw, pwCode) {
 					guarded := false
 					for _, ifi := range ifs(sc) {
 						cmp, okc := CanonCmp(BuildExpr(p, ifi.Cond, nil))
-						if okc && cmp.Op == "==" && cmp.D.String() == "fld(p0).code" && OnlyViaEdge(sc, ret, Edge{ifi.Block(), 1}) {
+						if okc && cmp.Op == "==" && cmp.D.String() == "fld(p0)."+pwCode && OnlyViaEdge(sc, ret, Edge{ifi.Block(), 1}) {
 							guarded = true
 						}
 					}
@@ -934,14 +935,14 @@ func c07Bound(p *Prog, r *Report, b *bufInfo, inLoop map[*ssa.BasicBlock]bool) {
 			r.Check(stripConv(st.Val) == ssa.Value(b.req), "C07.R5", sn+": retry expression sees the original request", p.InstrPos(st), "context.r = req", "the retry context does not carry the original request")
 		}
 		for _, st := range FieldStores(fn, ctxT, "responseCode") {
-			r.Check(b.recField(st.Val, "code"), "C07.R5", sn+": retry expression sees this attempt's status", p.InstrPos(st), "context.responseCode = bw.code", "the retry context's status is not this attempt's recorded status")
+			r.Check(b.recField(st.Val, recRole(p, "code")), "C07.R5", sn+": retry expression sees this attempt's status", p.InstrPos(st), "context.responseCode = bw.code", "the retry context's status is not this attempt's recorded status")
 		}
 	}
 	// the retry expression decides: an attempt is delivered (relay WriteHeader on the client writer) only when no
 	// retry condition is configured, the attempt bound is exhausted, or the expression evaluated to false for
 	// THIS attempt; any other way to the delivery skips retries the expression asks for
 	{
-		isPred := func(v ssa.Value) bool { return isFieldLoad(stripConv(v), b.typ, "retryPredicate") }
+		isPred := func(v ssa.Value) bool { return isFieldLoad(stripConv(v), b.typ, bufRole(p, "retryPredicate")) }
 		for _, t := range NilTests(fn, isPred) {
 			giveUp = append(giveUp, t.Nil)
 		}
@@ -984,7 +985,7 @@ func c07Bound(p *Prog, r *Report, b *bufInfo, inLoop map[*ssa.BasicBlock]bool) {
 		}
 	}
 	// nil predicate: no second invocation
-	for _, t := range NilTests(fn, func(v ssa.Value) bool { return isFieldLoad(stripConv(v), b.typ, "retryPredicate") }) {
+	for _, t := range NilTests(fn, func(v ssa.Value) bool { return isFieldLoad(stripConv(v), b.typ, bufRole(p, "retryPredicate")) }) {
 		nilOnly := func(e Edge) bool { return !(e.B == t.NonNil.B && e.K == t.NonNil.K) }
 		again := Reach(fn, t.If, nil, nilOnly)[b.handler] && feasiblePathExists(fn, t.If, b.handler, nilOnly)
 		r.Check(!again, "C07.R5", sn+": no retry without a retry condition", p.InstrPos(t.If), "on the predicate == nil edge the handler is not reachable again", "with no retry condition configured the handler can still be invoked again")
@@ -1087,7 +1088,7 @@ func runC15(p *Prog, r *Report) {
 	if chk == nil {
 		// the check may be written inline: the handler (and the buffering) must be unreachable on every
 		// edge implying ContentLength > max, and that edge must answer with MaxSizeReachedError and return
-		want := ParseLin("fld(p2).ContentLength - fld(p0).maxRequestBodyBytes", ">")
+		want := ParseLin("fld(p2).ContentLength - fld(p0)."+bufRole(p, "maxRequestBodyBytes"), ">")
 		okInline := false
 		for _, e := range edgesImplying(p, fn, want) {
 			other := Edge{e.B, 1 - e.K}
@@ -1129,7 +1130,7 @@ func runC15(p *Prog, r *Report) {
 		r.Fn(FName(cf))
 		// the check: returns MaxSizeReachedError on ContentLength - max > 0
 		okC := false
-		want := ParseLin("fld(p1).ContentLength - fld(p0).maxRequestBodyBytes", ">")
+		want := ParseLin("fld(p1).ContentLength - fld(p0)."+bufRole(p, "maxRequestBodyBytes"), ">")
 		for _, e := range edgesImplying(p, cf, want) {
 			for _, ret := range Returns(cf) {
 				if OnlyViaEdge(cf, ret, e) {
@@ -1156,7 +1157,7 @@ func runC15(p *Prog, r *Report) {
 		}
 		return false
 	}
-	r.Check(optOK(b.newBody, "MaxBytes", "maxRequestBodyBytes"), "C15.R1", sn+": request buffering enforces the configured maximum", p.InstrPos(b.newBody), "multibuf.New(..., MaxBytes(b.maxRequestBodyBytes))", "the request is buffered without MaxBytes(maxRequestBodyBytes) itself (e.g. unlimited when a length was declared): a body longer than declared or an undeclared one is not stopped at the maximum")
+	r.Check(optOK(b.newBody, "MaxBytes", bufRole(p, "maxRequestBodyBytes")), "C15.R1", sn+": request buffering enforces the configured maximum", p.InstrPos(b.newBody), "multibuf.New(..., MaxBytes(b.maxRequestBodyBytes))", "the request is buffered without MaxBytes(maxRequestBodyBytes) itself (e.g. unlimited when a length was declared): a body longer than declared or an undeclared one is not stopped at the maximum")
 	okNewEdge := false
 	for _, t := range NilTests(fn, resultValue(b.newBody, 1)) {
 		if OnlyViaEdge(fn, b.handler, t.Nil) {
@@ -1171,12 +1172,12 @@ func runC15(p *Prog, r *Report) {
 	c15SizeHandler(p, r)
 
 	// ---- R2 ----
-	r.Check(optOK(b.newW, "MaxBytes", "maxResponseBodyBytes"), "C15.R2", sn+": response capture enforces the configured maximum", p.InstrPos(b.newW), "NewWriterOnce(MaxBytes(b.maxResponseBodyBytes), ...)", "the response writer is not limited by MaxBytes(maxResponseBodyBytes)")
+	r.Check(optOK(b.newW, "MaxBytes", bufRole(p, "maxResponseBodyBytes")), "C15.R2", sn+": response capture enforces the configured maximum", p.InstrPos(b.newW), "NewWriterOnce(MaxBytes(b.maxResponseBodyBytes), ...)", "the response writer is not limited by MaxBytes(maxResponseBodyBytes)")
 	wr := p.MethodOf(b.rec, "Write")
 	okWE := false
 	if wr != nil {
 		r.Fn(FName(wr))
-		for _, st := range FieldStores(wr, b.rec, "writeError") {
+		for _, st := range FieldStores(wr, b.rec, recRole(p, "writeError")) {
 			e := BuildExpr(p, st.Val, nil).String()
 			if strings.Contains(e, "Write#1") {
 				okWE = true
@@ -1195,7 +1196,7 @@ func runC15(p *Prog, r *Report) {
 	}
 	okRelay := false
 	if relayWH != nil {
-		for _, t := range NilTests(fn, func(v ssa.Value) bool { return b.recField(v, "writeError") }) {
+		for _, t := range NilTests(fn, func(v ssa.Value) bool { return b.recField(v, recRole(p, "writeError")) }) {
 			if OnlyViaEdgeFrom(fn, b.handler, relayWH, t.Nil) {
 				okRelay = true
 			}
@@ -1223,7 +1224,7 @@ func runC15(p *Prog, r *Report) {
 		var rd *ssa.Call
 		for _, c := range Calls(closeFn) {
 			if call, ok := c.(*ssa.Call); ok {
-				if cc, ok := IsInvoke(call, "Reader"); ok && isFieldLoad(cc.Value, b.rec, "buffer") {
+				if cc, ok := IsInvoke(call, "Reader"); ok && isFieldLoad(cc.Value, b.rec, recRole(p, "buffer")) {
 					rd = call
 				}
 			}
@@ -1249,7 +1250,7 @@ func runC15(p *Prog, r *Report) {
 				continue
 			}
 			for _, c := range Calls(m) {
-				if cc, ok := IsInvoke(c, "Close"); ok && isFieldLoad(cc.Value, b.rec, "buffer") {
+				if cc, ok := IsInvoke(c, "Close"); ok && isFieldLoad(cc.Value, b.rec, recRole(p, "buffer")) {
 					r.Fail("C15.R3", "buffer.(*bufferWriter)."+m.Name()+": closes the response buffer outside the release routine", p.InstrPos(c), "the WriterOnce is closed before the release routine took its reader: for a spilled body the reader can no longer be obtained and the temporary file stays")
 				}
 			}
@@ -1260,7 +1261,7 @@ func runC15(p *Prog, r *Report) {
 			early := false
 			var at ssa.Instruction
 			for _, c := range Calls(closeFn) {
-				if cc, ok := IsInvoke(c, "Close"); ok && isFieldLoad(cc.Value, b.rec, "buffer") && Reach(closeFn, c, nil, nil)[rd] {
+				if cc, ok := IsInvoke(c, "Close"); ok && isFieldLoad(cc.Value, b.rec, recRole(p, "buffer")) && Reach(closeFn, c, nil, nil)[rd] {
 					early, at = true, c
 				}
 			}
